@@ -383,10 +383,13 @@ func genShutdown() (string, error) {
 	s += fmt.Sprintf("def drainDefaultMs : Int := %d\n", drainDefault)
 	// OnShutdown: broadcast then wait
 	fd = findFunc(hf, "activeListener", "OnShutdown")
-	if fd == nil || len(callsTo(fd, "conn.OnConnectionEvent")) != 1 || len(callsTo(fd, "al.waitConnectionsClose")) != 1 ||
-		len(callsTo(fd, "al.conns.VisitSafe")) != 1 || !mentions(fd, "api.OnShutdown") {
-		return "", fmt.Errorf("activeListener.OnShutdown: broadcast of api.OnShutdown over al.conns followed by waitConnectionsClose not found")
+	if fd == nil {
+		return "", fmt.Errorf("activeListener.OnShutdown not found")
 	}
+	broadcasts := len(callsTo(fd, "conn.OnConnectionEvent")) == 1 && len(callsTo(fd, "al.conns.VisitSafe")) == 1 && mentions(fd, "api.OnShutdown")
+	waits := len(callsTo(fd, "al.waitConnectionsClose")) == 1
+	s += "/-- `activeListener.OnShutdown`: sends `api.OnShutdown` to every connection of `al.conns` / then runs `waitConnectionsClose(drainTime)` -/\n"
+	s += fmt.Sprintf("def onShutdownBroadcasts : Bool := %v\ndef onShutdownWaits : Bool := %v\n", broadcasts, waits)
 
 	// ---- stage_manager.go
 	sf, err := parse(ssrc)
@@ -775,8 +778,13 @@ func genTransfer() (string, error) {
 		}
 	}
 	a1, a2 := exprKey(unwrapConv(sh[0].Args[1])), exprKey(unwrapConv(sh[0].Args[2]))
-	if defs[a1] != "buf.Len" || defs[a2] != "c.GetTLSInfo" {
-		return "", fmt.Errorf("transferReadSendData: header fields are not (buf.Len(), c.GetTLSInfo(buf))")
+	readDataFirst := true
+	switch {
+	case defs[a1] == "buf.Len" && defs[a2] == "c.GetTLSInfo":
+	case defs[a2] == "buf.Len" && defs[a1] == "c.GetTLSInfo":
+		readDataFirst = false
+	default:
+		return "", fmt.Errorf("transferReadSendData: header fields are not buf.Len() and c.GetTLSInfo(buf)")
 	}
 	iLen, iTLS := -1, -1
 	for i, o := range order {
@@ -793,7 +801,7 @@ func genTransfer() (string, error) {
 	if len(callsTo(fd, "transferSendIoBuffer")) != 1 {
 		return "", fmt.Errorf("transferReadSendData: payload send")
 	}
-	s += "/-- `transferReadSendData`: header = (data length, TLS length), payload = data ++ TLS (checked structurally) -/\ndef readHeadIsDataThenTls : Bool := true\n"
+	s += fmt.Sprintf("/-- `transferReadSendData`: the header's first field is the data length and the second the TLS length (false: swapped); payload = data ++ TLS -/\ndef readHeadIsDataThenTls : Bool := %v\n", readDataFirst)
 	// transferReadRecvData
 	fd, err = get("transferReadRecvData")
 	if err != nil {
@@ -859,9 +867,17 @@ func genTransfer() (string, error) {
 		return "", fmt.Errorf("transferWriteSendData: transferSendHead call")
 	}
 	w1, w2 := unwrapConv(sh[0].Args[1]), unwrapConv(sh[0].Args[2])
-	c1, ok1 := w1.(*ast.CallExpr)
-	if !ok1 || exprKey(c1.Fun) != "buf.Len" || exprKey(w2) != "id" {
-		return "", fmt.Errorf("transferWriteSendData: header fields are not (buf.Len(), id)")
+	isLen := func(e ast.Expr) bool {
+		c, ok := e.(*ast.CallExpr)
+		return ok && exprKey(c.Fun) == "buf.Len"
+	}
+	sendLenFirst := true
+	switch {
+	case isLen(w1) && exprKey(w2) == "id":
+	case isLen(w2) && exprKey(w1) == "id":
+		sendLenFirst = false
+	default:
+		return "", fmt.Errorf("transferWriteSendData: header fields are not buf.Len() and id")
 	}
 	fd, err = get("transferWriteRecvData")
 	if err != nil {
@@ -880,11 +896,18 @@ func genTransfer() (string, error) {
 			ret = r
 		}
 	}
-	if hd == nil || len(hd.Lhs) != 3 || len(rm) != 1 || ret == nil || len(ret.Results) != 3 ||
-		exprKey(rm[0].Args[1]) != exprKey(hd.Lhs[0]) || exprKey(ret.Results[0]) != exprKey(hd.Lhs[1]) {
-		return "", fmt.Errorf("transferWriteRecvData: expected (size, id) head, size payload bytes, (id, payload) result")
+	if hd == nil || len(hd.Lhs) != 3 || len(rm) != 1 || ret == nil || len(ret.Results) != 3 {
+		return "", fmt.Errorf("transferWriteRecvData: expected a head read, one payload read and a 3-value return")
 	}
-	s += "/-- write message: header = (data length, connection id) on both sides (checked structurally) -/\ndef writeHeadIsLenThenId : Bool := true\n"
+	recvSizeFirst := true
+	switch {
+	case exprKey(rm[0].Args[1]) == exprKey(hd.Lhs[0]) && exprKey(ret.Results[0]) == exprKey(hd.Lhs[1]):
+	case exprKey(rm[0].Args[1]) == exprKey(hd.Lhs[1]) && exprKey(ret.Results[0]) == exprKey(hd.Lhs[0]):
+		recvSizeFirst = false
+	default:
+		return "", fmt.Errorf("transferWriteRecvData: payload length / returned id are not the two head fields")
+	}
+	s += fmt.Sprintf("/-- write message: the sender's header is (data length, connection id) (false: swapped); the receiver takes the first field as the length (false: the second) -/\ndef writeSendLenFirst : Bool := %v\ndef writeRecvSizeFirst : Bool := %v\n", sendLenFirst, recvSizeFirst)
 	// ids
 	fd, err = get("transferSendID")
 	if err != nil {
